@@ -34,6 +34,8 @@ def instances(tier):
     for rank in (1, 2, 3):
         for N in ((2,) if tier == 'quick' else (2, 3)):
             out.append(dict(name='matrixarray[r%d,N%d]' % (rank, N), fn='matrixarray', args=dict(rank=rank, N=N), query_timeout_ms=120000))
+    for layout in ('swapaxes', 'T', 'subblock'):
+        out.append(dict(name='matrixarray[r2,N2,layout=%s]' % layout, fn='matrixarray', args=dict(rank=2, N=2, layout=layout), query_timeout_ms=120000))
     out.append(dict(name='ctor-errors', fn='ctor_errors', args={}))
     for how in ('dr', 'dk'):
         out.append(dict(name='definition-uf[N7,%s]' % how, fn='definition_n7', args=dict(how=how), dst_mode='uf', sin_exact=[7, [2]], query_timeout_ms=240000, timeout=1500))
@@ -141,16 +143,23 @@ def roundtrip(E, N, ctor):
     E.claim('canary', E.eq(back[0], 2.0 * f[0]), canary=True)
 
 
-def matrixarray(E, rank, N):
+def matrixarray(E, rank, N, layout='C'):
     types = ['A', 'B', 'C'][:rank]
     D, v0 = make_domain(E, 'dr', N)
-    data = _np.empty((N, rank, rank), dtype=object if E.sym else float)
+    if layout == 'C':
+        data = _np.empty((N, rank, rank), dtype=object if E.sym else float)
+    elif layout == 'swapaxes':
+        data = _np.swapaxes(_np.empty((N, rank, rank), dtype=object if E.sym else float), 1, 2)      # a view numpy cannot reshape in place
+    elif layout == 'T':
+        data = _np.empty((rank, rank, N), dtype=object if E.sym else float).T
+    else:
+        data = _np.empty((N, rank, rank + 1), dtype=object if E.sym else float)[:, :, :rank]          # sub-block of a wider table
     for i in range(rank):
         for j in range(i, rank):
             col = E.arr('m%d%d' % (i, j), N, default=0.3 + 0.1 * i + 0.05 * j)
             data[:, i, j] = col; data[:, j, i] = col
     pre = [[[data[l, i, j] for j in range(rank)] for i in range(rank)] for l in range(N)]
-    M = MatrixArray(length=N, rank=rank, data=data.copy(), space=Space.Real, types=types)
+    M = MatrixArray(length=N, rank=rank, data=(data.copy() if layout == 'C' else data), space=Space.Real, types=types)
     E.reachable('matrixarray')
     r = D.MatrixArray_to_fourier(M)
     E.claim_true('to_fourier:flag', M.space == Space.Fourier)
